@@ -118,6 +118,15 @@ def glue_ob(oid, timeout):
     ok = ok and processed.columns == shown and b2 is body
     if empty:
         ok = ok and len(pages) == 1 and pages[0].tag == "empty" and out == [("RENDER", "empty")]
+        # the fallback page is a complete page: displayed frame, its widths, the column-reduced attributes, header wanted
+        pg = pages[0]
+        from rtflite.pagination.strategies.base import PageContext as RealPageContext
+        defaults = {k: f.default for k, f in RealPageContext.model_fields.items() if not f.is_required() and f.default_factory is None}
+        def given(name):             # a keyword the code did not pass takes the real PageContext's default
+            return getattr(pg, name, defaults.get(name))
+        ok = ok and given("data") is processed and list(given("col_widths") or []) == list(ctx.col_widths)
+        ok = ok and given("table_attrs") is ctx.table_attrs and given("needs_header") is True
+        ok = ok and given("is_first_page") is True and given("is_last_page") is True and given("page_number") == 1
     else:
         ok = ok and out == [("RENDER", "page0"), ("RENDER", "page1")]
     return ok
